@@ -3,7 +3,7 @@ qutip_qip.transpiler.chain.to_chain_structure and QubitCircuit.adjacent_gates (g
 compared exactly), plus the direct statement of the property on the real code (indices in
 range, adjacency, pass-through, and equality of the unitary: dense matrices up to 7 qubits and
 an exact permutation-tracking normal form for every size)."""
-import itertools, time
+import itertools, re, time
 import numpy as np
 
 from vlib.core import PropertyCheck
@@ -192,8 +192,14 @@ def check_property(w):
     if len(passed) != len(unhandled) or any(a is not b and vars(a) != vars(b) for a, b in zip(passed, unhandled)):
         return True, "unhandled gates are not passed through unchanged and in order"
     # (v) same operation: exact normal form for every N
-    if normal_form(N, qc.gates) != normal_form(N, out):
-        return True, "permutation-tracking normal forms of input and routed circuit differ"
+    nf0, nf1 = normal_form(N, qc.gates), normal_form(N, out)
+    if nf0 != nf1:
+        what = "final permutation %s instead of %s" % (nf1[1], nf0[1])
+        for k, (a, b) in enumerate(itertools.zip_longest(nf0[0], nf1[0])):
+            if a != b:
+                what = f"operation {k} on logical qubits is {b} instead of {a}"
+                break
+        return True, "routed circuit is not the input circuit (exact permutation tracking): " + what
     # dense unitaries up to 7 qubits
     unitary = all(not isinstance(g, Measurement) and g.classical_controls is None for g in qc.gates)
     if unitary and N <= 7:
@@ -446,15 +452,24 @@ class C07(PropertyCheck):
                 yield w, d
 
     def oracle_always(self, ctx):
-        for w in itertools.chain(self._sweep(5, HANDLED), self._sweep(11, ("CNOT", "SWAPalpha"))):
+        """Sweep of the property on the real code; one witness (the first = smallest) per kind of failure."""
+        seen = set()
+
+        def stream():
+            yield {"N": 2, "setup": "linear", "api": "chain", "gates": [{"meas": "M0", "targets": [1], "cs": 0}]}
+            yield from self._sweep(11, ("CNOT",))
+            yield from self._sweep(5, HANDLED)
+            yield from self._sweep(9, ("SWAPalpha",))
+            for _ in range(150):
+                yield random_circuit(ctx.rng, maxN=9)
+
+        for w in stream():
             f, d = check_property(w)
             if f:
-                yield w, d
-        for _ in range(150):
-            w = random_circuit(ctx.rng, maxN=9)
-            f, d = check_property(w)
-            if f:
-                yield w, d
+                kind = re.sub(r"\d+", "#", d)[:70]
+                if kind not in seen:
+                    seen.add(kind)
+                    yield w, d
 
 
 CHECK = C07()
